@@ -449,6 +449,148 @@ func TestP4Large(t *testing.T) {
 	rec.Exhaustive()
 }
 
+// ---------------------------------------------------------------------------
+// several decoders alive at the same time
+
+type interCase struct {
+	Streams []pfbCase `json:"streams"`
+	// Turn[i] names the decoder that does read number i (cycled); each
+	// decoder follows its own buffer-size pattern.
+	Turn []int `json:"turn"`
+}
+
+func checkInter(c *interCase) string {
+	n := len(c.Streams)
+	if n == 0 || len(c.Turn) == 0 {
+		return ""
+	}
+	type state struct {
+		r    io.Reader
+		want []byte
+		out  []byte
+		k    int
+		done bool
+		err  error
+	}
+	sts := make([]*state, n)
+	for i := range c.Streams {
+		sc := &c.Streams[i]
+		data, want, short := sc.stream()
+		if short {
+			return ""
+		}
+		sts[i] = &state{r: pfb.Decode(&iofault.Chunks{Data: data, Sizes: sc.Chunks, WithEOF: sc.WithEOF}), want: want}
+	}
+	for step, live := 0, n; live > 0 && step < 1<<20; step++ {
+		i := c.Turn[step%len(c.Turn)] % n
+		st := sts[i]
+		if st.done {
+			// the turn goes to the next decoder that is still reading
+			for d := 1; d <= n; d++ {
+				if !sts[(i+d)%n].done {
+					st = sts[(i+d)%n]
+					i = (i + d) % n
+					break
+				}
+			}
+		}
+		bufs := c.Streams[i].Bufs
+		size := 512
+		if len(bufs) > 0 {
+			size = bufs[st.k%len(bufs)]
+		}
+		if size < 1 {
+			size = 1
+		}
+		st.k++
+		b := make([]byte, size)
+		m, e := st.r.Read(b)
+		if m < 0 || m > size {
+			return fmt.Sprintf("decoder %d: Read returned n=%d for a buffer of %d", i, m, size)
+		}
+		st.out = append(st.out, b[:m]...)
+		if e != nil {
+			st.done, st.err = true, e
+			live--
+		}
+		if len(st.out) > len(st.want)+16 {
+			return fmt.Sprintf("decoder %d of %d read in turns: output longer than the decoding of its stream", i, n)
+		}
+	}
+	for i, st := range sts {
+		if !st.done {
+			return fmt.Sprintf("decoder %d does not end", i)
+		}
+		if st.err != io.EOF {
+			return fmt.Sprintf("decoder %d of %d read in turns: well-formed stream ended with err=%v, want io.EOF", i, n, st.err)
+		}
+		if !bytes.Equal(st.out, st.want) {
+			k := 0
+			for k < len(st.out) && k < len(st.want) && st.out[k] == st.want[k] {
+				k++
+			}
+			return fmt.Sprintf("decoder %d of %d read in turns: output differs from the decoding of its own stream at byte %d (got %q, want %q); read alone the stream decodes correctly: %v", i, n, k, clip(st.out, k), clip(st.want, k), check(&c.Streams[i]) == "")
+		}
+	}
+	return ""
+}
+
+func TestP5Interleaved(t *testing.T) {
+	rec := ev.New("C14", "interleaved")
+	defer rec.Finish(t)
+	rec.Rule("two or three decoders over different generated well-formed streams (the generator of the streams part, each with its own buffer-size pattern and underlying read schedule) alive at the same time on one goroutine, their Read calls interleaved by a drawn turn pattern (strict alternation, runs, random); every decoder must deliver exactly the decoding of its own stream and end with io.EOF. Non-trivial: >= 2 streams with a binary segment each and an odd buffer size somewhere; distinct by streams and turns.")
+	ev.SetupRapid(20000, 800000)
+	rapid.Check(t, func(t *rapid.T) {
+		n := rapid.IntRange(2, 3).Draw(t, "decoders")
+		c := &interCase{}
+		bin, odd := 0, false
+		for i := 0; i < n; i++ {
+			sc := pfbCase{Segs: genSegs(t)}
+			sc.Marker = rapid.IntRange(0, 3).Draw(t, "marker") > 0
+			sc.Bufs = genSizes(t, "buf", 64)
+			if rapid.Bool().Draw(t, "chunked") {
+				sc.Chunks = genSizes(t, "chunk", 700)
+			}
+			sc.WithEOF = rapid.Bool().Draw(t, "witheof")
+			hasBin := false
+			for _, sg := range sc.Segs {
+				if sg.Type == 2 && len(sg.Data) > 0 {
+					hasBin = true
+				}
+			}
+			if hasBin {
+				bin++
+			}
+			for _, b := range sc.Bufs {
+				if b%2 == 1 {
+					odd = true
+				}
+			}
+			c.Streams = append(c.Streams, sc)
+		}
+		switch rapid.IntRange(0, 2).Draw(t, "turnkind") {
+		case 0:
+			c.Turn = []int{0, 1, 2}
+		case 1:
+			c.Turn = []int{0, 0, 0, 1, 2, 2, 1}
+		default:
+			c.Turn = rapid.SliceOfN(rapid.IntRange(0, 2), 1, 12).Draw(t, "turn")
+		}
+		rec.Eval(1)
+		rec.Class(fmt.Sprintf("decoders=%d", n))
+		if bin >= 2 && odd {
+			raw, _ := json.Marshal(c)
+			rec.NonTrivialHash(ev.Hash(string(raw)))
+			if rec.WantSample() && len(raw) < 1500 {
+				rec.Sample(c)
+			}
+		}
+		if msg := ev.Safe(func() string { return checkInter(c) }); msg != "" {
+			rec.Fail(t, msg, map[string]any{"interleaved": c})
+		}
+	})
+}
+
 func TestReplay(t *testing.T) {
 	rc, err := ev.LoadReplay()
 	if err != nil {
@@ -456,6 +598,15 @@ func TestReplay(t *testing.T) {
 	}
 	if rc == nil {
 		t.Skip("no VERIF_REPLAY")
+	}
+	var wrapped struct {
+		Inter *interCase `json:"interleaved"`
+	}
+	if json.Unmarshal(rc.Case, &wrapped) == nil && wrapped.Inter != nil {
+		if msg := ev.Safe(func() string { return checkInter(wrapped.Inter) }); msg != "" {
+			t.Fatalf("%s", msg)
+		}
+		return
 	}
 	var c pfbCase
 	if err := json.Unmarshal(rc.Case, &c); err != nil {
